@@ -327,6 +327,7 @@ def run(ctx: Ctx) -> None:
                 for k in [k for k in sys.modules if k.split(".")[0] in ("plug", "solo", "nsa", "nsb", "plug_strict", "sol")]:
                     del sys.modules[k]
         selections(ctx, td, env, log)
+        shared_error_class(ctx, td, env, log)
         signatures(ctx, td, env, log)
         # one file under two import names (execution only: outside the model)
         if log.exists():
@@ -381,6 +382,46 @@ def selections(ctx: Ctx, td: Path, env, log: Path) -> None:
             if c[1] == "PLG101" and c[5] != ("--verbose" in extra):
                 ctx.report("settings-not-injected", f"the check with a settings parameter saw verbose={c[5]} with options {extra}", {"argv": base + extra})
                 break
+
+
+SHARED_SECOND = '''from mypy.nodes import StrExpr, NameExpr
+from refurb.error import Error
+import json, os
+from {origin} import ErrorInfo{alias}
+
+def check(node: {node}, errors: list[Error]) -> None:
+    with open(os.environ["C16_LOG"], "a") as f:
+        f.write(json.dumps([__name__, "SHR100", "call", type(node).__name__, node.line, None]) + "\\n")
+    errors.append({cls}.from_node(node))
+'''
+
+
+def shared_error_class(ctx: Ctx, td: Path, env, log: Path) -> None:
+    """Several check modules of one plugin that report through ONE error class (imported from a sibling, under its own name or an
+    alias): every module's check is registered and called; selecting or deselecting the code acts on all of them."""
+    pkg = td / "shr"
+    make_module(pkg / "first.py", "SHR", 100, "two", "IntExpr")
+    (pkg / "__init__.py").write_text("")
+    (pkg / "second.py").write_text(SHARED_SECOND.format(origin=".first", alias="", node="StrExpr", cls="ErrorInfo"))
+    (pkg / "third.py").write_text(SHARED_SECOND.format(origin="shr.first", alias=" as Shared", node="NameExpr", cls="Shared").replace("import ErrorInfo as Shared", "import ErrorInfo as Shared\nErrorInfo = Shared"))
+    (td / "t_shared.py").write_text("a = 1\nb = 'text'\nc = a\n")
+    want_all = {"shr.first": "IntExpr", "shr.second": "StrExpr", "shr.third": "NameExpr"}
+    for extra, want in (([], want_all), (["--disable", "SHR100"], {}), (["--disable-all", "--enable", "SHR100"], want_all), (["--enable-all"], want_all), (["--ignore", "SHR100"], {})):      # an ignored check is not loaded either
+        for loads in ((["shr"], ["shr.second", "shr.first", "shr.third"], ["shr.third", "shr"]) if ctx.tier == "thorough" or not extra else (["shr"],)):
+            if log.exists():
+                log.unlink()
+            rc, out, err = L.cli(["t_shared.py", "--quiet", *[x for m_ in loads for x in ("--load", m_)], *extra], cwd=str(td), env_extra=env)
+            calls = [json.loads(l) for l in log.read_text().splitlines()] if log.exists() else []
+            called = {c[0]: c[3] for c in calls}
+            ctx.case(("shared-error-class", tuple(extra), tuple(loads)), nontrivial=True)
+            ctx.count("shared-error-class")
+            n_rep = len(re.findall(r"\[SHR100\]", out))
+            if not L.clean_verdict(rc, out, err) or called != want or n_rep != (len(calls) if want and extra != ['--ignore', 'SHR100'] else 0):
+                ctx.report("selection:shared-error-class", f"three check modules reporting through one error class, --load {loads} {extra}: called {sorted(called)}, expected {sorted(want)}; {n_rep} diagnostics",
+                           {"argv": ["t_shared.py", "--quiet", "--load", *loads, *extra], "modules": {"shr/first.py": "defines ErrorInfo SHR100, check on IntExpr", "shr/second.py": "from .first import ErrorInfo, check on StrExpr",
+                                                                                                      "shr/third.py": "from shr.first import ErrorInfo as Shared; ErrorInfo = Shared, check on NameExpr"},
+                            "stdout": out[-400:], "stderr": err[-400:]})
+                return
 
 
 def signatures(ctx: Ctx, td: Path, env, log: Path) -> None:
